@@ -152,6 +152,9 @@ def speed(lon, lat, t, suspect_threshold, fail_threshold):
             cands = [s]
             if near(s, fail_threshold, rel=1e-9, abs_=1e-9) or near(s, suspect_threshold, rel=1e-9, abs_=1e-9):
                 cands = [s * (1 - 2e-9) - 2e-9, s * (1 + 2e-9) + 2e-9]
+                for thr in (suspect_threshold, fail_threshold):
+                    if cands[0] <= thr <= cands[1]:
+                        cands += [thr, math.nextafter(thr, math.inf)]
             for c in cands:
                 if c > fail_threshold:
                     adm.add(F)
@@ -373,6 +376,12 @@ def attenuated(x, t, suspect_threshold, fail_threshold, test_period=None, min_ob
         adm = set()
         guard = any(near(s, thr, rel=1e-9, abs_=1e-12) for thr in (suspect_threshold, fail_threshold))
         cands = [s] if not guard else [s - abs(s) * 2e-9 - 2e-12, s + abs(s) * 2e-9 + 2e-12]
+        if guard:
+            # every verdict reachable for some value inside the band (the two thresholds may lie
+            # within one ulp of each other, leaving SUSPECT only strictly between them)
+            for thr in (suspect_threshold, fail_threshold):
+                if cands[0] <= thr <= cands[1]:
+                    cands += [thr, math.nextafter(thr, -math.inf)]
         for c in cands:
             adm.add(F if c < fail_threshold else S if c < suspect_threshold else G)
         if check_type == "range" and missing_in_window:
